@@ -104,6 +104,15 @@ Many(dims) ==
                /\ P(CaseAfterEmptyCall(g, Supply(names, [good EXCEPT ![InName(i)] = sh]), <<"many_inputs", "one_varied">>))
    /\ (n >= 2 => P(CaseOf(g, Supply(names, [good EXCEPT ![InName(1)] = ConformShape(dims[1]) \o <<1>>, ![InName(2)] = <<>>]), <<"many_inputs", "two_wrong">>)))
    /\ LET gs == GraphOf(dims, {n}) IN P(CaseOf(gs, Supply(names \ {InName(n)}, good), <<"many_inputs", "last_shadowed">>))
+   \* a declared input that no node reads (and that is no graph output): the signature is a contract on the call, whatever the graph
+   \* body does with a tensor - missing, nil, of another rank or extent it is refused as any other input is
+   /\ \A k \in 1..n :
+         LET gu == Unconsumed(g, k) IN
+         /\ P(CaseOf(gu, Supply(names, good), <<"many_inputs", "input_read_by_no_node", "all_good">>))
+         /\ P(CaseOf(gu, Supply(names \ {InName(k)}, good), <<"many_inputs", "input_read_by_no_node", "missing">>))
+         /\ P(CaseOf(gu, [Supply(names, good) EXCEPT ![InName(k)] = Nil], <<"many_inputs", "input_read_by_no_node", "nil_tensor">>))
+         /\ \A sh \in {[ConformShape(dims[k]) EXCEPT ![Len(dims[k])] = 7], ConformShape(dims[k]) \o <<1>>, <<>>} :
+               P(CaseOf(gu, Supply(names, [good EXCEPT ![InName(k)] = sh]), <<"many_inputs", "input_read_by_no_node", "varied">>))
    \* an initializer-backed input at ANY position of the declaration order; the other inputs conforming, missing or varied
    /\ \A k \in 1..n :
          LET gs == GraphOf(dims, {k}) rest == names \ {InName(k)} IN
